@@ -14,6 +14,7 @@ Relations between executions (checked by the driver on the returned values): obj
 trailing zeros that keep N, round trip record -> spectrum -> inverse helper, results held from a first record intact
 after a second record of the same shape went through the same paths (back-to-back.first-result-intact).
 """
+import copy
 import weakref
 
 import numpy as np
@@ -48,7 +49,9 @@ RULE = ('case = (record, dt, Signal|AccSignal, p2_plus, explicit n); each case r
         'Record forms: float64, float32, int64, int32/int16/int8/uint8/uint16 filling the dtype range, lists/tuples of '
         'floats, of ints, mixed, strided / reversed views, read-only arrays; amplitudes 1e-12..1e12, 1e-3 signal on a 1e6 '
         'offset, extreme at the first/last sample, flat ends; dt: vf/gen.py classes, decades 1e-9..1e3, int, np.float64, '
-        'np.float32; integer options as int / np.int64 / np.int32, passed by keyword, positionally, or all-keyword; the '
+        'np.float32, gen.awkward_dt; record shapes one-sided, monotone, tail-heavy, one changed sample, added Nyquist '
+        'component, one sample 1e3..1e12 times the others, exact zeros inside; lengths 2^k-1, 2^k, 2^k+1 for k up to 17 '
+        '(sampled bins); explicit n also at and next to the powers of two above npts; integer options as int / np.int64 / np.int32, passed by keyword, positionally, or all-keyword; the '
         'spectrum handed to the inverse helpers as the object\'s own array, a caller array, list, tuple, read-only, '
         'strided view or complex64, the same object to 2-3 consecutive calls. '
         'distinct = digest(values, container, dt, class, options); non-trivial = record not identically zero. '
@@ -80,6 +83,9 @@ ASSUMPTIONS = ['finite 1-D record of length >= 2, real or - as returned by the l
                'function-level post-condition of fas2values/fas2signal is judged for every spectrum',
                'exceptions raised by a mutator inside an object history are counted, not judged (the mutators are C17); '
                'what is read or computed after it is judged against the current values in any case',
+               'tolerances are relative to dt*sum|x| (bins), to each frequency, to dt*sum x^2 (Parseval, accumulated in double '
+               'precision) and to max|x| (round trip): valid for every amplitude / dt / dynamic range generated (1e-12..1e12, '
+               'dt 1e-9..1e3, spikes up to 1e12 x the rest); a bin is a global sum, so no local scale exists for it',
                'oracle vf/oracles/dft.py is correct (direct sum with integer phase reduction; self-test at start-up)']
 MIN_EVALS = {   # about half of what a normal run reaches
     'quick': {'gen_fa_spectrum.bins==dt*DFT': 2500, 'lazy.bins==dt*DFT': 7000,
@@ -96,7 +102,7 @@ MIN_EVALS = {   # about half of what a normal run reaches
               'lazy-after-mutation.nbins==N//2': 250, 'lazy-after-mutation.freqs==k/(N*dt)': 250,
               'fas2values.argument-unchanged': 1600, 'fas2signal.argument-unchanged': 500,
               'argument-unchanged[record]': 20000, 'back-to-back.first-result-intact': 250,
-              'fas2signal-object.spectrum==source-bins': 170},
+              'fas2signal-object.spectrum==source-bins': 170, 'signal-argument.public-state-unchanged': 20000},
     'thorough': {'gen_fa_spectrum.bins==dt*DFT': 9500, 'lazy.bins==dt*DFT': 27000,
                  'generate_fa_spectrum.bins==dt*DFT': 4500, 'calc_fa_spectrum.bins==dt*DFT': 9000,
                  'gen_fa_spectrum.nbins==N//2': 9500, 'lazy.nbins==N//2': 27000,
@@ -111,7 +117,7 @@ MIN_EVALS = {   # about half of what a normal run reaches
                  'lazy-after-mutation.nbins==N//2': 1600, 'lazy-after-mutation.freqs==k/(N*dt)': 1600,
                  'fas2values.argument-unchanged': 6000, 'fas2signal.argument-unchanged': 2000,
                  'argument-unchanged[record]': 90000, 'back-to-back.first-result-intact': 1000,
-                 'fas2signal-object.spectrum==source-bins': 1000}}
+                 'fas2signal-object.spectrum==source-bins': 1000, 'signal-argument.public-state-unchanged': 90000}}
 EXHAUSTIVE = {'quick': 'every record length 2..130 (4 records each) through every entry point; every 2^e-1, 2^e, 2^e+1, e=3..11',
               'thorough': 'every record length 2..130 (12 records each) through every entry point; every 2^e-1, 2^e, 2^e+1, e=3..12'}
 
@@ -201,7 +207,42 @@ def _entry(ctx, sig):
         raw = np.array(sig.values)
     except Exception:
         raw = None
-    return {'rec': _record_of(ctx, sig), 'raw': raw, 'dt': getattr(sig, 'dt', None), 'cls': type(sig).__name__}
+    return {'rec': _record_of(ctx, sig), 'raw': raw, 'dt': getattr(sig, 'dt', None), 'cls': type(sig).__name__,
+            'pub': _public_state(sig)}
+
+
+def _public_state(sig):
+    """Every public observable of a signal object that is not a lazily filled cache: the public instance attributes and
+    values / dt / npts / smooth_fa_freqs / response_times (arrays copied)."""
+    out = {}
+    try:
+        items = [(k, v) for k, v in vars(sig).items() if not k.startswith('_')]
+    except TypeError:
+        items = []
+    for name in ('values', 'dt', 'npts', 'smooth_fa_freqs', 'response_times'):
+        try:
+            items.append((name, getattr(sig, name)))
+        except Exception:
+            pass
+    for k, v in items:
+        out[k] = np.array(v) if isinstance(v, np.ndarray) else v
+    return out
+
+
+def _public_diff(before, after):
+    bad = sorted(set(before) ^ set(after))
+    for k in set(before) & set(after):
+        u, v = before[k], after[k]
+        if isinstance(u, np.ndarray) or isinstance(v, np.ndarray):
+            same = isinstance(u, np.ndarray) and isinstance(v, np.ndarray) and _same_bits(u, v)
+        else:
+            try:
+                same = type(u) is type(v) and bool(u == v)
+            except Exception:
+                same = u is v
+        if not same:
+            bad.append(k)
+    return bad
 
 
 def _same_bits(a, b):
@@ -218,6 +259,9 @@ def _check_record_unchanged(ctx, where, wit, sig, st):
     except Exception:
         same = False
     _judge(ctx, same, 'argument-unchanged[record]', wit, '%s changed the values of the signal it was given' % where)
+    bad = _public_diff(st['pub'], _public_state(sig))
+    _judge(ctx, not bad, 'signal-argument.public-state-unchanged', wit,
+           '%s changed public observables of the signal it was given: %s' % (where, bad))
 
 
 def _sig_wit(st, fn, **kw):
@@ -362,7 +406,7 @@ def _post_lazy(self, result, st, which):
         return
     with attach.paused():
         fa = result if which == 'fa_spectrum' else self.fa_spectrum
-        fr = result if which == 'fa_freqs' else self.fa_freqs
+        fr = result if which in ('fa_freqs', 'fa_frequencies') else self.fa_freqs
     if changed:
         check_spectrum(CTX, 'lazy-after-mutation', wit, x, dt, N, fa, fr, bins_label='bins==dt*DFT(current values)', T=T)
     else:
@@ -562,6 +606,7 @@ def install(ctx):
     attach.wrap_method(eqsig.Signal, 'gen_fa_spectrum', _post_gen, pre=_pre_gen)
     attach.wrap_property(eqsig.Signal, 'fa_spectrum', lambda o, v, st: _post_lazy(o, v, st, 'fa_spectrum'), pre=_pre_lazy)
     attach.wrap_property(eqsig.Signal, 'fa_freqs', lambda o, v, st: _post_lazy(o, v, st, 'fa_freqs'), pre=_pre_lazy)
+    attach.wrap_property(eqsig.Signal, 'fa_frequencies', lambda o, v, st: _post_lazy(o, v, st, 'fa_frequencies'), pre=_pre_lazy)
     attach.wrap(fq, 'generate_fa_spectrum', _post_generate, pre=_pre_sig0)
     attach.wrap(fq, 'calc_fa_spectrum', _post_calc, pre=_pre_sig0)
     attach.wrap(fq, 'fas2values', _post_fas2values, pre=_pre_inverse)
@@ -643,6 +688,34 @@ def _draw_input(rng, npts, allow_f32=True):
         x[:k] = x[k]
         x[-k:] = x[-k - 1]
         rcls += '/flat-ends'
+    r = rng.random()
+    if r < 0.20:                                       # shapes the statement does not forbid
+        x = x.copy()
+        peak = max(float(np.max(np.abs(x))), 1e-300)
+        kind = int(rng.integers(7))
+        if kind == 0:                                  # one-sided: all the action at negative values
+            x = -np.abs(x) - (peak if rng.random() < 0.5 else 0.0)
+            rcls += '/one-sided'
+        elif kind == 1:                                # monotone / trend dominated
+            x = np.cumsum(np.abs(x)) if rng.random() < 0.5 else x + np.linspace(0, 20 * peak, npts)
+            rcls += '/monotone'
+        elif kind == 2 and npts >= 8:                  # tail-heavy: everything in the last 1/k of the record
+            cut = npts - max(1, npts // int(rng.integers(4, 17)))
+            x[:cut] = 0.0
+            rcls += '/tail-heavy'
+        elif kind == 3:                                # a constant with a single changed sample
+            x = np.full(npts, peak)
+            x[int(rng.integers(npts))] += peak * float(rng.choice([-2.0, 1e-6, 0.5]))
+            rcls += '/one-changed-sample'
+        elif kind == 4:                                # energy exactly at the Nyquist frequency on top of the record
+            x = x + peak * float(rng.choice([1.0, 3.0])) * np.where(np.arange(npts) % 2 == 0, 1.0, -1.0)
+            rcls += '/+nyquist'
+        elif kind == 5:                                # one sample 1e3 .. 1e12 times larger than the others
+            x[int(rng.integers(npts))] = peak * 10.0 ** float(rng.choice([3, 6, 9, 12])) * float(rng.choice([-1.0, 1.0]))
+            rcls += '/spike'
+        else:                                          # exact zeros inside
+            x[rng.random(npts) < 0.4] = 0.0
+            rcls += '/zeros-inside'
     intval = bool(np.all(x == np.round(x)) and np.max(np.abs(x)) < 2 ** 52)
     k = rng.random()
     form = None
@@ -693,6 +766,8 @@ def _draw_dt(rng):
         return float(rng.choice([1e-9, 1e-6, 1.0, 10.0, 1e3])), None
     if r < 0.28:
         return int(rng.choice([1, 2, 5])), 'int'
+    if r < 0.40:                                       # steps for which dt/(dt/k) != k, (dt/k)*k != dt ...
+        return gen.awkward_dt(rng, int(rng.choice([3, 7, 11, 49, 93]))), None
     dt = gen.dt(rng)
     r = rng.random()
     if r < 0.08:
@@ -842,6 +917,16 @@ def rel_agreement(ctx, eqsig, p):
     _agree(ctx, wit, xf, dt, obj, c, 'n=npts vs calc_fa_spectrum()', T)
     _roundtrip(ctx, eqsig, xf, dt_in, npts, c[0], wit, 'unpadded', stype if p.get('signal_on') == 'nopad' else None,
                T, style, p.get('fas_form'))
+    # the arrays the array-level functions returned belong to the caller: overwriting them changes no later answer
+    for arr in (g[0], g[1], c[0], c[1]):
+        if isinstance(arr, np.ndarray) and arr.flags.writeable:
+            arr[...] = 12345.0
+    s2.fa_spectrum
+    s2.fa_frequencies
+    s.fa_spectrum
+    s.fa_freqs
+    _generate(eqsig, s, style, False)           # the same calls again, on the same objects
+    _calc(eqsig, s, style)
     # the caller's record container is what it was before the first call
     _judge(ctx, _unchanged(x, snap), 'argument-unchanged[record]', wit,
            'the container the signals were built from changed during the calls (%s)' % type(x).__name__)
@@ -960,6 +1045,11 @@ def rel_inverse_object(ctx, eqsig, p):
         rec.gen_fa_spectrum(n=rec.npts)
         back = np.asarray(rec.fa_spectrum)
         _agree(ctx, wit, xc, dt, (back, rec.fa_freqs), eqsig.calc_fa_spectrum(rec), 'fas2signal object: unpadded')
+        fas_snap = fas.copy()
+        rec.add_constant(1.0)                       # correcting the returned object leaves the argument alone
+        rec.fa_spectrum
+        _judge(ctx, _same_bits(fas, fas_snap), 'fas2signal.argument-unchanged', wit,
+               'the spectrum passed to fas2signal changed when the returned object was corrected')
         ref = fas.astype(complex)
         ref[0] = 0.0
         amp = 2.0 * float(np.sum(np.abs(fas[1:])))
@@ -1161,6 +1251,20 @@ def rel_history(ctx, eqsig, p):
                 eqsig.generate_fa_spectrum(s, n_pad=st[2])
             elif kind == 'calc':
                 eqsig.calc_fa_spectrum(s, n=st[2], p2_plus=st[3])
+            elif kind == 'derive':                # an object the library (or deepcopy) derives from this warm object
+                try:
+                    if st[2] == 'deepcopy':
+                        new = copy.deepcopy(s)
+                        ent = _LAST.get(id(s))          # the copy carries the memo of its source: same bookkeeping
+                        if ent is not None and ent[0]() is s:
+                            _LAST[id(new)] = (weakref.ref(new),) + tuple(ent[1:])
+                    elif st[2] == 'interp':
+                        new = eqsig.interp_to_approx_dt(s, target_dt=s.dt * st[3], even=bool(st[4]))
+                    else:
+                        new = eqsig.combine_at_angle(s, objs[-1], st[3])
+                    objs.append(new)
+                except Exception as e:
+                    ctx.observe('history: deriving by %s raised %s (counted, not judged here)' % (st[2], type(e).__name__))
             else:
                 try:
                     with np.errstate(all='ignore'):
@@ -1255,6 +1359,17 @@ def _draw_history(rng, h, tier):
     steps += reads(0, 0.5)
     if twin:
         steps += reads(1, 0.5)
+    if rng.random() < 0.25:                               # a derived object: analysed itself, mutated, both re-read
+        k = int(rng.integers(3)) if clsname == 'AccSignal' and n_now >= 8 else 0
+        d = [[0, 'derive', 'deepcopy'], [0, 'derive', 'interp', float(rng.choice([1.0, 2.0, 0.5])), int(rng.integers(2))],
+             [0, 'derive', 'combine', float(rng.choice([0.0, 30.0, 90.0]))]][k]
+        o = 2 if twin else 1
+        steps.append(d)
+        steps += reads(o, 0.4)
+        if rng.random() < 0.6:
+            steps.append([o, 'mut', _draw_mutator(rng, ['add_constant', 'remove_average', 'running_average', 'reset_values/shorter'][int(rng.integers(4))], max(n_now // 2, 2) if k == 1 else n_now, dt)])
+            steps += reads(o, 0.4)
+            steps += reads(0, 0.3)
     for _ in range(int(rng.integers(0, 4))):              # tail: more steps in random order, with repeats
         steps.append(extra(int(rng.integers(2)) if twin else 0, n_now))
     if rng.random() < 0.3:
@@ -1266,7 +1381,11 @@ def _draw_history(rng, h, tier):
 # ---------------------------------------------------------------------------------------------------- workload
 def _explicit_n(rng, npts, i):
     """Explicit n >= npts cycling through the classes of DESIGN (c)."""
-    k = i % 6
+    k = i % 7
+    if k == 6:                                         # at and next to the powers of two above npts
+        e = O.ceil_log2(npts) + int(rng.integers(0, 2))
+        cand = [v for v in ((1 << e) - 1, 1 << e, (1 << e) + 1) if v >= npts]
+        return int(cand[int(rng.integers(len(cand)))])
     if k == 0:
         return npts
     if k == 1:
@@ -1301,7 +1420,7 @@ def _draw_case(rng, npts, i, fixed, ci):
     dt, dt_form = _draw_dt(rng)
     p = {'values': xin, 'form': form, 'dt': dt, 'dt_form': dt_form, 'cls': 'AccSignal' if ci % 2 else 'Signal',
          'p2_plus': int(i % 4) if fixed else int(rng.integers(0, 4)),
-         'n': _explicit_n(rng, npts, i if fixed else int(rng.integers(0, 6))),
+         'n': _explicit_n(rng, npts, i if fixed else int(rng.integers(0, 7))),
          'int_form': [None, None, 'np.int64', 'np.int32'][int(rng.integers(4))],
          'style': ['kw', 'kw', 'pos', 'kw-all'][int(rng.integers(4))],
          'both': bool(rng.random() < 0.25),
@@ -1395,14 +1514,18 @@ def run_shard(ctx):
                 ctx.exception('back-to-back.first-result-intact', dict(q, fn='rel.back_to_back'), e)
     ctx.exhaustive['record_lengths_2..130_and_pow2+-1_cases'] = n_enum
     # -- a few long records past 2**16 (sampled bins) ----------------------------------------------------------------
-    n_long = 4 if quick else 32
+    pow2_long = [(1 << k) + d for k in range(12 if quick else 13, 18) for d in (-1, 0, 1)]
+    n_long = (4 if quick else 32) + len(pow2_long) * (1 if quick else 2)
     for li in core.split_range(n_long, ctx.shard, ctx.nshards):
-        npts = (1 << 16) + [1, 2, 37, 1000][li % 4] + 2 * (li // 4)
+        if li < (4 if quick else 32):
+            npts = (1 << 16) + [1, 2, 37, 1000][li % 4] + 2 * (li // 4)
+        else:
+            npts = pow2_long[(li - (4 if quick else 32)) % len(pow2_long)]
         x, rcls = gen.record(rng, npts, cls=['noise', 'quake', 'walk', 'chirp'][li % 4])
         p = {'values': x, 'form': None, 'dt': gen.dt(rng), 'dt_form': None, 'cls': 'AccSignal' if li % 2 else 'Signal', 'p2_plus': 0,
              'n': npts, 'int_form': None, 'style': 'kw', 'both': False, 'fas_form': None, 'stype': 'signal',
              'signal_on': 'nopad', 'first': 'fa_spectrum', 'lite': True}
-        ctx.case(core.digest(x, p['dt'], 'long'), nontrivial=True, cls='long>2**16/%s' % rcls,
+        ctx.case(core.digest(x, p['dt'], 'long'), nontrivial=True, cls='long-or-pow2+-1-to-2**17/%s' % rcls,
                  sample={'npts': npts, 'dt': p['dt'], 'cls': p['cls'], 'record': rcls, 'long': True})
         try:
             rel_agreement(ctx, eqsig, p)
@@ -1484,7 +1607,7 @@ def replay(w):
                 w[k] = _int_as(w[k], w[k + '_form'])
         if fn == 'Signal.gen_fa_spectrum':
             s.gen_fa_spectrum(p2_plus=w['p2_plus'], n=w['n'])
-        elif fn in ('Signal.fa_spectrum', 'Signal.fa_freqs', 'max_fa_period'):
+        elif fn in ('Signal.fa_spectrum', 'Signal.fa_freqs', 'Signal.fa_frequencies', 'max_fa_period'):
             if prior:
                 s.gen_fa_spectrum(p2_plus=prior['p2_plus'], n=prior['n'])
             if fn == 'max_fa_period':
